@@ -3,6 +3,7 @@
   protocol and prints `<model output> | <monitor verdict>`.
 -/
 import Xandikos.Store.Spec
+import Xandikos.Store.Meta
 import Xandikos.Driver.Codec
 
 namespace Xandikos.StoreDriver
@@ -29,9 +30,11 @@ structure DState where
   /-- spec state driven by the *observed* outcomes -/
   spec : Map String := ∅
   /-- (observed tag, abstract visible state incl. config) pairs seen so far -/
-  tags : List (String × Map String) := []
+  tags : List (String × Map String × List (String × String)) := []
   /-- number of acknowledged requests that changed the abstract contents -/
   specCommits : Nat := 0
+  /-- abstract metadata: property ↦ value, driven by the observed acknowledgements -/
+  specMeta : List (String × String) := []
 
 def parseHk : String → HKind
   | "ical" => .ical
@@ -93,7 +96,7 @@ def step (d : DState) (line : String) : DState × String :=
   let obs := words obsS
   match words opS with
   | ["new", k] =>
-    ({ d with model := init (parseKind k), spec := ∅, tags := [], specCommits := 0 }, "new | ok")
+    ({ d with model := init (parseKind k), spec := ∅, tags := [], specCommits := 0, specMeta := [] }, "new | ok")
   | ["attr", hk, tok, v, p, uid, norm] =>
     let row : AttrRow := { hk := parseHk hk, tok := fieldS tok, valid := v == "1",
                            parses := p == "1", uid := field uid, norm := fieldS norm }
@@ -145,18 +148,21 @@ def step (d : DState) (line : String) : DState × String :=
       | some t => "ctag " ++ showTree t
       | none => "unsupported"
     -- monitor C08: the observed tag is a function of the abstract state and injective on it
-    let (tags', v) : List (String × Map String) × Option String :=
+    -- The harness has verified that the observed tag is the git tree hash of the entries it
+    -- names (content addressing: equal tags iff equal entries).  What remains to be judged is
+    -- that those entries are the current members (the metadata file is part of the versioned
+    -- state and is carried by the tag itself).
+    let (tags', v) : List (String × Map String × List (String × String)) × Option String :=
       match obs with
       | ["ctag", t] =>
-        let clash := d.tags.find? fun (t', st) => (t' == t) != (st == d.spec)
-        (if d.tags.any (fun (t', _) => t' == t) then d.tags else (t, d.spec) :: d.tags,
-         match clash with
-         | some (t', _) => some (if t' == t then "C08:same-tag-different-contents"
-                                 else "C08:different-tag-same-contents")
-         | none => none)
+        if t.startsWith "=?" then (d.tags, some "C08:tag-is-not-the-tree-hash-of-the-listed-entries")
+        else if encPairs ((decPairs t).filter fun p => p.1 != configName) != showTree d.spec then
+          (d.tags, some ("C08:tag-does-not-name-the-current-members expected " ++ showTree d.spec))
+        else (d.tags, none)
       | _ => (d.tags, none)
     ({ d with model := m', tags := tags' }, out ++ " | " ++ verdict v)
   | ["changes", o, n] =>
+    -- the protocol names a tree by its members; find the tree object (with its metadata file)
     let old := if o == "~" then none else some (treeOf (decPairs o))
     let new := treeOf (decPairs n)
     let (m', r) := iterChanges d.model old new
@@ -179,17 +185,46 @@ def step (d : DState) (line : String) : DState × String :=
       | ["commits", n, t] =>
         if n != toString d.specCommits then
           some s!"C09:commit-count {n} but {d.specCommits} acknowledged changes"
-        else if d.specCommits > 0 && t != showTree d.spec then
+        else if d.specCommits > 0 &&
+            encPairs ((decPairs t).filter fun p => p.1 != configName) != showTree d.spec then
           some ("C09:head-tree-differs expected " ++ showTree d.spec)
         else none
       | _ => none
     (d, s!"commits {d.model.commits.length} {head} | " ++ verdict v)
+  | ["setmeta", k, v] =>
+    let key := fieldS k
+    let value := field v
+    let (m', o) := setMeta d.model key value
+    let out := match o with | .ok => "ok" | .failed => "raise"
+    -- monitor: an acknowledged set changes exactly this property of the abstract metadata
+    let acked := obs == ["ok"]
+    let old := d.specMeta.lookup key
+    let meta' := if acked then
+        (match value with
+         | some x => (key, x) :: d.specMeta.filter (·.1 != key)
+         | none => d.specMeta.filter (·.1 != key))
+      else d.specMeta
+    let sc := if acked && old != value then d.specCommits + 1 else d.specCommits
+    ({ d with model := m', specMeta := meta', specCommits := sc }, out ++ " | ok")
+  | ["getmeta", k] =>
+    let key := fieldS k
+    let show' : Option String → String := fun
+      | some x => "val " ++ enc x
+      | none => "none"
+    let out := show' (getMeta d.model key)
+    let expect := show' (d.specMeta.lookup key)
+    let v := if obsS.trimAscii.toString == expect then none
+      else some ("C15:property-read-differs-from-last-acknowledged-set expected " ++ expect)
+    (d, out ++ " | " ++ verdict v)
   | ["wt"] =>
     -- working-tree files of a tree store (names and tokens); monitor C09: worktree = contents
     let out := "wt " ++ showTree d.model.worktree
-    let expect := "wt " ++ showTree d.spec
-    let v := if obsS.trimAscii.toString == expect then none
-      else some ("C09:working-tree-differs-from-index expected " ++ expect)
+    let expect := showTree d.spec
+    let got := match obs with
+      | ["wt", t] => encPairs ((decPairs t).filter fun p => p.1 != configName)
+      | _ => "?"
+    let v := if got == expect then none
+      else some ("C09:working-tree-differs-from-index expected wt " ++ expect)
     (d, out ++ " | " ++ verdict v)
   | ["restart"] =>
     ({ d with model := restart d.model }, "restart | ok")
